@@ -361,6 +361,9 @@ Proof.
   destruct s1; [exact E|eapply ext_trans; [exact E|apply IH]].
 Qed.
 
+Lemma q_key_slot n c : quiet c (key_slot n c).
+Proof. unfold key_slot. destruct (loopKey n); [apply quiet_refl|apply q_w_lenBB]. Qed.
+
 Lemma ext_rloop n c : ext c (rloop fr n c).
 Proof.
   unfold rloop. destruct (split_path (loopSrc n)) as [|k rest]; [apply ext_refl|].
@@ -372,11 +375,12 @@ Proof.
   - destruct v; try exact H1.
     destruct (jget j rest); try exact H1; try apply H2;
       match goal with |- context [match ?l with [] => _ | _ :: _ => _ end] => destruct l end;
-      try apply H2; (eapply ext_trans; [exact H1|apply ext_vloop]).
+      try apply H2; (eapply ext_trans; [eapply ext_trans; [exact H1|apply ext_vloop]|apply ext_of_quiet, q_key_slot]).
   - destruct v; try exact H1.
     destruct (nth_error (store (w_cerr c None)) oid); try exact H1.
     destruct (oloop ofuel o (prefix ++ rest)) as [[sp cnt]|]; [|exact H1].
-    eapply ext_trans; [exact H1|apply ext_oloop_run].
+    assert (H3 : ext c (oloop_run fr n oid sp cnt 0 (w_cerr c None) false)) by (eapply ext_trans; [exact H1|apply ext_oloop_run]).
+    destruct cnt; [exact H3|eapply ext_trans; [exact H3|apply ext_of_quiet, q_key_slot]].
 Qed.
 
 Lemma ext_branch n c ok e : ext c (fst (branch fr n c ok e)).
